@@ -6,6 +6,8 @@ import ConserveModel.Driver.Glob
 import ConserveModel.Driver.Diff
 import ConserveModel.Driver.Mtime
 import ConserveModel.Driver.Tree
+import ConserveModel.Driver.Fs
+import ConserveModel.Driver.Protocol
 import ConserveModel.Driver.Ops
 /-
 cvmodel: line-protocol driver for the executable model.
@@ -47,7 +49,7 @@ def handleStateless (toks : List String) : List String :=
   match handleBlake toks with
   | some r => r
   | none =>
-    match [handleGlob, handleDiff, handleMtime, handleTree].findSome? (fun h => h toks) with
+    match [handleGlob, handleDiff, handleMtime, handleTree, Conserve.DFs.handleFs, Conserve.Proto.handleProtocol].findSome? (fun h => h toks) with
     | some r => r
     | none => handle toks
 
